@@ -162,7 +162,7 @@ func c11Plot(m *Metrics, tag string) (out []c11Finding) {
 		return
 	}
 	lines := strings.Split(strings.TrimRight(buf.String(), "\n"), "\n")
-	if len(lines) < 3 || !strings.HasPrefix(lines[0], "Value(ms)") {
+	if len(lines) < 3 || !strings.HasPrefix(strings.TrimSpace(lines[0]), "Value") { // one header line; alignment and padding are presentation
 		add("shape", "%q", ev.Trunc(buf.String(), 200))
 		return
 	}
